@@ -23,20 +23,24 @@ def gen(rng, tier):
         if regs and rng.random() < 0.4:
             regs.insert(rng.randint(0, len(regs)), rng.choice(regs))
         ops = []
+        small_mult = rng.random() < 0.35        # only multiplicities 0..2: the harness then also drives u16 counters
+        long_hist = small_mult and rng.random() < 0.15
         saw_reset = reset_then_ins = insat = multi = False
-        for _k in range(rng.randint(3, 16)):
+        for _k in range(rng.randint(3, 16) if not long_hist else rng.randint(300, 420)):
             r = rng.random()
             if r < 0.62:
                 q = R.rand_query(rng, regs, mode)
-                k = rng.choice([1, 1, 1, 2, 3, 0, -1, -2, 5])
+                if long_hist and rng.random() < 0.8:
+                    q = (b'absent', q[1], q[2])          # totals grow, region counts stay small
+                k = rng.choice([1, 1, 1, 2, 3, 0, -1, -2, 5]) if not small_mult else rng.choice([1, 1, 2, 0])
                 ops.append(['ins', R.h(q[0]), q[1], q[2], k])
                 if sum(1 for g in regs if R.hit(q, g)) >= 2:
                     multi = True
                 if saw_reset:
                     reset_then_ins = True
             elif r < 0.75 and regs:
-                ops.append(['insat', rng.randrange(len(regs)), rng.choice([1, 2, -1, 4])]); insat = True
-            elif r < 0.85:
+                ops.append(['insat', rng.randrange(len(regs)), rng.choice([1, 2, -1, 4]) if not small_mult else rng.choice([1, 2])]); insat = True
+            elif r < 0.85 and not (long_hist and _k > 5):
                 ops.append(['reset']); saw_reset = True
             else:
                 ops.append(['get'])
